@@ -23,7 +23,7 @@ RULE = (
     "Generated: track with 1-2 challenges, each a schedule of 1-5 (thorough 1-7) elements (leaf tasks or parallel elements of 1-4 tasks; names, "
     "6 operation types, 4 tags, clients, caps, completed-by, iteration/time based, throughput targets) built into real Task/Parallel objects; one "
     "filter list in include or exclude mode with 1-4 items drawn from the task names / 'type:x' / 'tag:y' present in the first schedule and from "
-    "absent ones, with the special classes 'all tasks of one parallel element matched', 'some but not all', 'only absent filters' (and 8 % no "
+    "absent ones, with the special classes 'all tasks of one parallel element matched', 'some but not all', 'only absent filters', 'filters of different kinds with one value' (a task named like the type / tag of others; <v>, type:<v>, tag:<v>) (and 8 % no "
     "filter at all); applied through the real TaskFilterTrackProcessor. Non-trivial = the filter removes at least one and keeps at least one task "
     "and removes at least one task of a parallel element. Distinct = distinct canonical JSON."
 )
@@ -35,6 +35,7 @@ ASSUMPTIONS = [
 ]
 BUDGET = {"quick": 3000, "thorough": 20000}
 REQUIRED_CLASSES = {
+    "filters-of-different-kinds-with-one-value": 200,
     "mode:include": 600,
     "mode:exclude": 450,
     "parallel:all-tasks-matched": 150,
